@@ -227,7 +227,28 @@ def u_scipy(root):
         return {"max_calls": VNum(z3.IntVal(6000))}
     eng.verify(S, "minimize", None, init_min, contract=c, tag="[no fixed parameter]")
     # profile: state saved, bounds searched (excursions), state restored; every scan point is an excursion; state restored at the end
-    mk(eng, S, "_save_state")
+    # ghost '#saved': the point the last _save_state stored (its body writes a copy of _par_val into the state dictionary; _load_state - verified above - reads it back)
+    eng.schema["MinimizerBase"].update({"#saved": SEQ, "_par_err": OPTSEQ, "_fval": PYOBJ})
+    mk(eng, "MinimizerBase", "_save_state")
+    cs = Contract(S, "_save_state")
+
+    def post_save(vw):
+        d = vw.eng.read_field(vw.post, vw.self, "_save_state_dict")
+        v = d.d.get("parameter_values") if isinstance(d, VDict) else None
+        p0 = F(vw, vw.pre, "_par_val")
+        return [("the state dictionary holds a copy of the current parameter values", z3.And(v.len == p0.len, z3.ForAll([i], z3.Implies(z3.And(0 <= i, i < p0.len), v.arr[i] == p0.arr[i]))) if isinstance(v, (VSeq, VOptSeq)) else z3.BoolVal(False))]
+    cs.ensures.append(post_save)
+    cs.requires.append(lambda vw: z3.Not(F(vw, vw.pre, "_par_val").none))
+
+    def init_sv(e, st, me_):
+        e.write_field(st, me_, "_save_state_dict", VDict({}))
+        e.write_field(st, me_, "_par_bounds", VNone()); e.write_field(st, me_, "_fval", VNone()); e.write_field(st, me_, "_opt_result", VNone())
+        e.write_field(st, me_, "_par_fixed", VSeq(FnArr(lambda k_: z3.RealVal(0)), N))
+        return {}
+    eng.verify(S, "_save_state", None, init_sv, contract=cs)
+    sv = mk(eng, S, "_save_state", modifies=[("#saved", "seq", ""), ("#saved", "seq", "len")])
+    sv.ensures.append(lambda vw: [F(vw, vw.post, "#saved").len == N, z3.ForAll([i], z3.Implies(z3.And(0 <= i, i < N), F(vw, vw.post, "#saved").arr[i] == F(vw, vw.pre, "_par_val").arr[i]))])
+    sl.ensures.append(lambda vw: [z3.ForAll([i], z3.Implies(z3.And(0 <= i, i < N), F(vw, vw.post, "_par_val").arr[i] == F(vw, vw.pre, "#saved").arr[i]))])
     mk(eng, S, "did_fit", "getter", result=lambda vw: VBool(F(vw, vw.pre, "_did_fit").e))
     mk(eng, "MinimizerBase", "function_value", "getter", result=lambda vw: VNum(fresh("fval", R)))
     gp = mk(eng, "MinimizerBase", "_get_profile_bound", modifies=mods + [("_par_val", "optseq", ""), ("_par_val", "optseq", "len")], result=lambda vw: VTuple([VNum(fresh("low", R)), VNum(fresh("high", R)), VOpaque("arrows")]))
@@ -238,8 +259,12 @@ def u_scipy(root):
     eng.schema["MinimizerBase"].update({"_x0": PYOBJ})
     c = Contract(S, "profile")
     c.requires.append(lambda vw: z3.And(F(vw, vw.pre, "_did_fit").e, z3.Int("size") >= 1))
-    c.loops[0] = lambda e, s: z3.And(0 <= s.locals["#i0"].e, s.locals["_y"].len == z3.Int("size"))
-    c.ensures.append(lambda vw: [] if vw.flow == "raise" else synced_post(pv)(vw))
+    entry = VSeq(z3.Const("parameter_values_at_entry", PA), N)
+    c.requires.append(lambda vw: z3.And(z3.Not(F(vw, vw.pre, "_par_val").none), F(vw, vw.pre, "_par_val").len == N, z3.ForAll([i], z3.Implies(z3.And(0 <= i, i < N), F(vw, vw.pre, "_par_val").arr[i] == entry.arr[i]))))
+    c.loops[0] = lambda e, s: z3.And(0 <= s.locals["#i0"].e, s.locals["_y"].len == z3.Int("size"),
+                                     z3.ForAll([i], z3.Implies(z3.And(0 <= i, i < N), e.read_field(s, s.locals["self"], "#saved").arr[i] == entry.arr[i])))
+    c.ensures.append(lambda vw: [] if vw.flow == "raise" else synced_post(pv)(vw) +
+                     [("the parameter values are where they were before the query (the point saved BEFORE any excursion is the one restored at the end)", z3.ForAll([i], z3.Implies(z3.And(0 <= i, i < N), F(vw, vw.post, "_par_val").arr[i] == entry.arr[i])))])
     eng.verify(S, "profile", None, lambda e, st, me_: (e.write_field(st, me_, "_par_names", VTuple([VStr("a"), VStr("b")])), {"parameter_name": VStr("a"), "size": VNum(z3.Int("size"))})[1], contract=c)
     return eng
 
